@@ -62,6 +62,8 @@ let () =
     | "X" :: b :: c :: n :: "=>" :: v :: _ ->
         incr nx;
         let m = iz (expo (zi (ios b)) (zi (ios c)) (zi (ios n))) in
+        let g = iz (go_expo (zi (ios b)) (zi (ios c)) (zi (ios n))) in   (* the float expression written out (ProofsFloat.v) *)
+        if string_of_int g <> v then begin incr mism; if !mism <= 30 then Printf.printf "MISMATCH\t-1\t0\tgo_expo (float model)=%d\t%s\n" g line end;
         if string_of_int m <> v then begin incr mism; if !mism <= 30 then Printf.printf "MISMATCH\t-1\t0\texpo model=%d\t%s\n" m line end
     | "CFG" :: id :: name :: base :: cap :: jit :: err :: nm :: _ ->
         Hashtbl.replace cfgname (ios id) nm;
